@@ -125,7 +125,10 @@ type TermStore struct {
 	NonRange map[int]bool
 	// KnownHash: real outputs of modelled hash functions on concrete inputs (see hashconst.go)
 	KnownHash map[string]knownHash
-	kb        strings.Builder
+	// MinSliceBits: width from which equal slices of two hashes count as equal hashes
+	// (0 = default 64; Params["shorthash_injective"]=1 sets 40 for chain33's 5-byte short hash)
+	MinSliceBits int
+	kb           strings.Builder
 }
 
 type ufSig struct {
@@ -400,7 +403,7 @@ func (ts *TermStore) Eq(a, b *Term) *Term {
 		}
 		// equal slices (>= 8 bytes, same position) of two collision-free hashes: treated
 		// as equality of the hashes (truncated-hash collisions are outside every claim)
-		if a.Op == OExtract && b.Op == OExtract && a.Val == b.Val && a.Sort.W >= 64 {
+		if a.Op == OExtract && b.Op == OExtract && a.Val == b.Val && a.Sort.W >= ts.minSliceBits() {
 			x, y := a.Args[0], b.Args[0]
 			if x.Op == OApp && y.Op == OApp && ts.Injective[x.Name] && ts.Injective[y.Name] {
 				return ts.Eq(x, y)
